@@ -30,7 +30,11 @@ pub fn check_layout(m: &Module, seps: &[Sep], ascii: bool) -> Result<Stats, Fail
     let toks = module_tokens(m);
     let plain = render_plain(&toks);
     let items = items_of(&toks);
-    let (rendered, used) = render(&items, seps);
+    let (mut rendered, used) = render(&items, seps);
+    // half of the layouts end without a final line break (the text then ends with its last token)
+    if hash_of(&rendered.text) % 2 == 0 && rendered.text.ends_with('\n') {
+        rendered.text.pop();
+    }
     let t_plain = tokenize(&plain).map_err(|p| ("harness:plain-layout-panics".to_string(), format!("the plain layout makes the tokenizer panic: {p}")))?;
     let t_lay = tokenize(&rendered.text).map_err(|p| ("tokenizer-panic".to_string(), format!("the tokenizer panicked on a re-layout: {p}")))?;
     // token sequence (kind + text)
@@ -159,7 +163,7 @@ fn case_json(m: &Module, seps: &[Sep], ascii: bool) -> J {
     json!({"module": serde_json::to_value(m).unwrap(), "ascii": ascii, "separators": seps.iter().map(|s| s.render()).collect::<Vec<_>>(), "separator_kinds": seps.iter().map(|s| s.kind()).collect::<Vec<_>>(), "text": rendered.text, "plain": render_plain(&toks)})
 }
 
-const RULE: &str = "generated front-end-profile modules (proptest) are printed as a list of lexical items; a layout chooses a separator at every item boundary from {empty (where no separator is required), space, tab, LF, CRLF, lone CR, two blanks, blank+LF, '-- text' line comments, '/* text */' block comments, nested block comments; comments with and without adjacent blanks; comment text containing dashes, lone '*' and '/', quotes, keywords, line breaks}. Oracle: the token sequence (kind + text) of the layout equals that of the plain layout, the parsed and resolved models are equal, a sample of the layouts gives identical generated Rust files through the file-based entry point Converter::load_file + to_rust, and (ASCII layouts) every token's Location equals the line/column where the printer put its first character. Non-trivial: the layout uses >= 1 comment or line break; distinct = hash of the text.";
+const RULE: &str = "generated front-end-profile modules (proptest) are printed as a list of lexical items; a layout chooses a separator at every item boundary from {empty (where no separator is required), space, tab, LF, CRLF, lone CR, two blanks, blank+LF, '-- text' line comments, '/* text */' block comments, nested block comments; comments with and without adjacent blanks; texts with and without a final line break; comment text containing dashes, lone '*' and '/', quotes, keywords, line breaks}. Oracle: the token sequence (kind + text) of the layout equals that of the plain layout, the parsed and resolved models are equal, a sample of the layouts gives identical generated Rust files through the file-based entry point Converter::load_file + to_rust, and (ASCII layouts) every token's Location equals the line/column where the printer put its first character. Non-trivial: the layout uses >= 1 comment or line break; distinct = hash of the text.";
 
 pub fn run(ctx: Ctx) -> i32 {
     let report = Report::new(ctx.clone(), RULE);
